@@ -210,6 +210,9 @@ class Doc(object):
             k = r.randint(1, 5)
             self.source(mesh, '%s-uv%d' % (gid, t), comps, k)
             texs.append(('%s-uv%d' % (gid, t), k))
+        if r.random() < 0.3:
+            # a source no input uses, with parameter names that LOOK like the ones the loader normalises (U,V -> S,T; S,T,P -> S,T)
+            self.source(mesh, gid + '-aux', r.choice([['U', 'V', 'W'], ['S', 'T', 'Q'], ['U', 'V', 'W', 'Q'], ['S', 'T', 'P', 'Q'], ['V', 'U'], ['A']]), r.randint(1, 4))
         vid = gid + '-vtx'
         v = self.sub(mesh, 'vertices', id=vid)
         self.sub(v, 'input', semantic='POSITION', source='#' + gid + '-pos')
